@@ -580,3 +580,10 @@ func (c *Client) ProduceEmpty(n int) (string, error) {
 	err := c.Call("ProduceEmpty", &n, &r)
 	return r, err
 }
+
+func (s *Svc) OwnerAt(ts *int64, r *int) error { *r = s.n.OwnerAt(*ts); return nil }
+func (c *Client) OwnerAt(ts int64) (int, error) {
+	var r int
+	err := c.Call("OwnerAt", &ts, &r)
+	return r, err
+}
